@@ -11,6 +11,7 @@ from .interp import Cond
 import os, sys
 sys.set_int_max_str_digits(0)
 DEBUG = bool(os.environ.get('SYMX_DEBUG'))
+z3.set_param('memory_max_size', 6000)   # MB: a query that would exceed it comes back unknown/exception (= undecided)
 PI_LO = Fraction(3141592653589793, 10**15)
 PI_HI = Fraction(3141592653589794, 10**15)
 
@@ -227,7 +228,7 @@ class Feasibility:
         try:
             k = self.key(c, pol)
             pk = tuple(self.key(a, b) for a, b in pc)
-        except T.PolyTooBig:
+        except (T.PolyTooBig, MemoryError):
             return None
         if k in pk:
             return True
